@@ -108,7 +108,22 @@ pub fn run_case(ctx: &Ctx, case: &Case, counting: bool) -> PResult {
 				}
 			}
 			Op::Block(raw) => {
-				let built = w.build(cb.c(), raw, head).map_err(|e| Fail::new("builder", format!("op {}: {}", i, e)))?;
+				let built = match w.build(cb.c(), raw, head) {
+					Ok(b) => b,
+					Err(e) => {
+						// the builder roots a model-valid block through Chain::set_txhashset_roots, i.e. the node
+						// itself applies it in a read-only extension: after the recorded restart defect the NRD
+						// index carries the other fork's heights and refuses it there already
+						if nrd_index_from_header_fork && e.contains("could not root a model-valid block") && e.contains("NRD") {
+							let sig = "nrd-rule-misapplied-after-restart:nrd-index-rebuilt-along-header-chain-fork";
+							if ctx.known_hit(sig) {
+								return Ok(());
+							}
+							return Err(Fail::new(sig, format!("op {}: {}", i, e)));
+						}
+						return Err(Fail::new("builder", format!("op {}: {}", i, e)));
+					}
+				};
 				let on_fork = built.parent != head;
 				let res = cb.c().process_block(built.block.clone(), opts(PowMode::Real));
 				let ctx_tag = if on_fork { "fork" } else { "main" };
